@@ -23,7 +23,7 @@ ASSUMPTIONS = ["Python's re computes the expected stripping (the regex engine is
                "trigger strings are non-empty and free of ']]'"]
 BUDGET = {"quick": {"shards": 4, "examples": 300}, "thorough": {"shards": 16, "examples": 4000}}
 
-TRIGGERS = [":keyword", ":param **kwargs:", "KW", "キーワード", "a.b*c", "(kw)", ":keyword x:", "$"]
+TRIGGERS = [":keyword", ":param **kwargs:", "KW", ":keyword ", " kw", "k  w", "キーワード", "a.b*c", "(kw)", ":keyword x:", "$"]
 PATTERNS = ["", "", "^_", "_$", "^[a-z]{1,3}_", "[0-9]+", "^(in|out)_", "(?i)^arg_", ".*", "^fn_", "a", "_name$", "^\"|\"$"]
 
 
@@ -39,7 +39,7 @@ def _doc():
 def strategy(tier):
     p = G.Profile(doc=_doc(), max_items=6 if tier == "quick" else 10, depth=3 if tier == "quick" else 4,
                   kinds={"func", "parseargs", "block", "generic", "set", "class", "member", "test", "section"},
-                  dangling=False, groups=False, impl_doc=True, nest_all=True)
+                  dangling=False, groups=False, impl_doc=True, nest_all=True, dups=True)
     return st.fixed_dictionaries({
         "module": G.module(p), "layout": G.layout_choices(24),
         "settings": st.fixed_dictionaries({
